@@ -4,14 +4,13 @@
   pool invariant.
 -/
 import MultiProofs.OwnPool
+import MultiProofs.OwnReext
+import MultiProofs.OwnViewAssign
+import MultiProofs.OwnRows
 
 namespace Multi
 namespace Own
 variable {α : Type}
-
-/-- extensions of the array built from a range of `count` sub-arrays with extensions `inner` -/
-def rangeExts (count : Int) (inner : List Ext) : List Ext :=
-  ⟨0, count⟩ :: (if count = 0 then List.replicate inner.length ⟨0, 0⟩ else inner)
 
 /-- operations on whole arrays of a pool (slot names are natural numbers) -/
 inductive VOp (α : Type) where
@@ -31,6 +30,15 @@ inductive VOp (α : Type) where
   | reextSame (k : Nat) (es : List Ext) (fill : Option α)  -- `A.reextent(x [, v])` with x the current extensions
   | destroy (k : Nat)                                 -- end of lifetime
   | write (k : Nat) (idx : List Int) (v : α)          -- `A[i][j]… = v`
+  | reext (k : Nat) (es : List Ext) (fill : Option α) -- `A.reextent(x)` (`fill = none`) / `A.reextent(x, v)` (`fill = some v`)
+  | vctor (k src : Nat) (ops : List Op)               -- `array A(view)`, `+view`, `view.decay()`; view = chain of C01 operations on `src`
+  | vassign (k src : Nat) (ops : List Op)             -- `A = view`, `operator=(const_subarray const&)`
+  | rassign (k src : Nat) (ops : List Op)             -- `A = view`, `operator=(Range&&)` (reshape shortcut)
+  | convassign (k src : Nat)                          -- `A = B` with `B` an array of another element type
+  | stdswap (j k : Nat)                               -- `std::swap(A, B)`: move-construct a temporary, two move assignments
+  | assignr (k : Nat) (count : Int) (inner : List Ext) (vals : List α)   -- `A.assign(first, last)`
+  | ilassign (k : Nat) (count : Int) (inner : List Ext) (vals : List α)  -- `A = {…}` (nested initializer lists)
+  | il (k : Nat) (count : Int) (inner : List Ext) (vals : List α)        -- `array A = {…}` / `array A{…}`
 
 /-- the model's step -/
 def step (cfg : Cfg α) (p : Pool α) : VOp α → Pool α
@@ -90,6 +98,39 @@ def step (cfg : Cfg α) (p : Pool α) : VOp α → Pool α
     match p.arrs k with
     | some a => (p.withHeap (writeAt p.heap a idx v)).set k (some a)
     | none => p
+  | .reext k es fill =>
+    match p.arrs k with
+    | some a => let r := reextent cfg p.heap a es fill; (p.withHeap r.1).set k (some r.2)
+    | none => p
+  | .vctor k src ops =>
+    match p.arrs src with
+    | some b => let r := viewCtor p.heap b.base (applyOps b.view ops); (p.withHeap r.1).set k (some r.2)
+    | none => p
+  | .vassign k src ops =>
+    match p.arrs k, p.arrs src with
+    | some a, some b => let r := viewAssign p.heap a b.base (applyOps b.view ops); (p.withHeap r.1).set k (some r.2)
+    | _, _ => p
+  | .rassign k src ops =>
+    match p.arrs k, p.arrs src with
+    | some a, some b => let r := rangeAssign p.heap a b.base (applyOps b.view ops); (p.withHeap r.1).set k (some r.2)
+    | _, _ => p
+  | .convassign k src =>
+    match p.arrs k, p.arrs src with
+    | some a, some b => let r := convAssign p.heap a b; (p.withHeap r.1).set k (some r.2)
+    | _, _ => p
+  | .stdswap j k =>
+    match p.arrs j, p.arrs k with
+    | some a, some b => let r := stdSwap p.heap a b; ((p.withHeap r.1).set j (some r.2.1)).set k (some r.2.2)
+    | _, _ => p
+  | .assignr k c inner vals =>
+    match p.arrs k with
+    | some a => let r := assignRange p.heap a c inner vals; (p.withHeap r.1).set k (some r.2)
+    | none => p
+  | .ilassign k c inner vals =>
+    match p.arrs k with
+    | some a => let r := ilAssign p.heap a c inner vals; (p.withHeap r.1).set k (some r.2)
+    | none => p
+  | .il k c inner vals => let r := ilCtor cfg p.heap c inner vals; (p.withHeap r.1).set k (some r.2)
 
 /-- the documented effect on values -/
 def specStep (cfg : Cfg α) (ap : Nat → Option (AbsArr α)) : VOp α → (Nat → Option (AbsArr α))
@@ -110,6 +151,15 @@ def specStep (cfg : Cfg α) (ap : Nat → Option (AbsArr α)) : VOp α → (Nat 
   | .reextSame _ _ _ => ap
   | .destroy k => upd ap k none
   | .write k idx v => upd ap k ((ap k).map fun x => ⟨x.exts, x.elems.set (rowMajor x.exts idx).toNat (some v)⟩)
+  | .reext k es fill => upd ap k ((ap k).map fun x => if Exts.eqv es x.exts = true then x else reextVal cfg x es fill)
+  | .vctor k src ops => upd ap k ((ap src).map fun x => viewVal x ops)
+  | .vassign k src ops => upd ap k ((ap src).map fun x => viewVal x ops)
+  | .rassign k src ops => upd ap k ((ap src).map fun x => viewVal x ops)
+  | .convassign k src => upd ap k (ap src)
+  | .stdswap j k => upd (upd ap j (ap k)) k (ap j)
+  | .assignr k c inner vals => upd ap k ((ap k).map fun x => listVal x c inner vals)
+  | .ilassign k c inner vals => upd ap k ((ap k).map fun x => if c = 0 then emptyVal x.exts.length else listVal x c inner vals)
+  | .il k c inner vals => upd ap k (some ⟨collapse (rangeExts c inner), vals.map some⟩)
 
 /-- the domain of each operation: slots live / free as the operation needs, extensions well formed, reshape to the same count -/
 def VOp.InDom (p : Pool α) : VOp α → Prop
@@ -129,6 +179,17 @@ def VOp.InDom (p : Pool α) : VOp α → Prop
   | .reextSame k es _ => ∃ a, p.arrs k = some a ∧ Exts.eqv es a.exts = true
   | .destroy k => ∃ a, p.arrs k = some a
   | .write k idx _ => ∃ a, p.arrs k = some a ∧ InBox a.exts idx
+  | .reext k es _ => ∃ a, p.arrs k = some a ∧ ExtsOK es ∧ es.length = a.dim ∧ a.dim ≠ 0
+  | .vctor k src ops => p.arrs k = none ∧ ∃ b, p.arrs src = some b ∧ OpsInDom b.view ops ∧ (applyOps b.view ops).lay ≠ []
+  | .vassign k src ops => k ≠ src ∧ ∃ a b, p.arrs k = some a ∧ p.arrs src = some b ∧ a.dim ≠ 0 ∧ OpsInDom b.view ops ∧
+      (applyOps b.view ops).lay ≠ [] ∧ (applyOps b.view ops).exts.length = a.dim
+  | .rassign k src ops => k ≠ src ∧ ∃ a b, p.arrs k = some a ∧ p.arrs src = some b ∧ a.dim ≠ 0 ∧ OpsInDom b.view ops ∧
+      (applyOps b.view ops).lay ≠ [] ∧ (applyOps b.view ops).exts.length = a.dim
+  | .convassign k src => k ≠ src ∧ ∃ a b, p.arrs k = some a ∧ p.arrs src = some b ∧ a.dim ≠ 0 ∧ b.dim = a.dim
+  | .stdswap j k => j ≠ k ∧ ∃ a b, p.arrs j = some a ∧ p.arrs k = some b ∧ a.dim ≠ 0 ∧ b.dim ≠ 0
+  | .assignr k c inner vals => ∃ a, p.arrs k = some a ∧ a.dim ≠ 0 ∧ ExtsOK (rangeExts c inner) ∧ (vals.length : Int) = nElems (rangeExts c inner)
+  | .ilassign k c inner vals => ∃ a, p.arrs k = some a ∧ a.dim ≠ 0 ∧ ExtsOK (rangeExts c inner) ∧ (vals.length : Int) = nElems (rangeExts c inner)
+  | .il k c inner vals => p.arrs k = none ∧ ExtsOK (rangeExts c inner) ∧ (vals.length : Int) = nElems (rangeExts c inner)
 
 theorem absPool_some {p : Pool α} {k : Nat} {a : Arr} (h : p.arrs k = some a) : absPool p k = some (absArr p.heap a) := by
   simp [absPool, h]
@@ -250,21 +311,24 @@ theorem Inv.remove {p : Pool α} (hi : Inv p) {k : Nat} {a : Arr} (hk : p.arrs k
         unfold absArr
         rw [(hother j b hjk hb).2]
 
-/-- the array a move constructor builds: same block, same value -/
-theorem moveCtor_valid {h : Heap α} {b : Arr} (hv : Valid h b) :
-    Valid h (moveCtor b).1 ∧ absArr h (moveCtor b).1 = absArr h b ∧ (moveCtor b).1.numElements = b.numElements ∧ (moveCtor b).1.base = b.base := by
-  obtain ⟨hx, hn⟩ := hv.rebuild
-  have hnum : (moveCtor b).1.numElements = b.numElements := hn
-  refine ⟨⟨⟨b.exts, hv.exts_ok, rfl⟩, ?_⟩, ?_, hnum, rfl⟩
-  · rcases hv.store with hz | ⟨x, cs, hb, hl, hlen⟩
-    · left; rw [hnum, hz]
-    · right; exact ⟨x, cs, hb, hl, by rw [hnum, hlen]⟩
-  · apply AbsArr.ext'
-    · exact hx
-    · show cellsOf h (moveCtor b).1 = cellsOf h b
-      unfold cellsOf
-      rw [hnum]
-      rfl
+theorem Pool.set_set (p : Pool α) (k : Nat) (x y : Option Arr) : (p.set k x).set k y = p.set k y := by
+  cases p with
+  | mk heap arrs =>
+    simp only [Pool.set, Pool.mk.injEq, true_and]
+    funext i
+    by_cases hi' : i = k <;> simp [hi']
+
+/-- `std::swap` on two arrays of dimensionality ≥ 1: no heap effect; the first gets the second's block and layout, the second the first's
+    block with the layout rebuilt from its extensions -/
+theorem stdSwap_eq (h : Heap α) (a b : Arr) (hDa : a.dim ≠ 0) (hDb : b.dim ≠ 0) : stdSwap h a b = (h, b, (moveCtor a).1) := by
+  have h1 : (⟨none, emptyLay a.dim⟩ : Arr).numElements = 0 := emptyLay_numElements hDa
+  have h2 : (⟨b.base, emptyLay b.dim⟩ : Arr).numElements = 0 := emptyLay_numElements hDb
+  have hd3 : (moveCtor a).1.dim ≠ 0 := by
+    show (Layout.ofExts a.exts).length ≠ 0; rw [ofExts_length, arr_exts_length]; exact hDa
+  have h3 : (⟨(moveCtor a).1.base, emptyLay (moveCtor a).1.dim⟩ : Arr).numElements = 0 := emptyLay_numElements hd3
+  simp only [stdSwap, moveAssign, clear, dtor, moveCtor] at h3 ⊢
+  unfold deallocate
+  simp [h1, h2, h3]
 
 /-- **one step commutes with abstraction and keeps the invariant** -/
 theorem step_refines (cfg : Cfg α) (p : Pool α) (hi : Inv p) (op : VOp α) (hd : op.InDom p) :
@@ -400,6 +464,100 @@ theorem step_refines (cfg : Cfg α) (p : Pool α) (hi : Inv p) (op : VOp α) (hd
     have := hi.replace k (writeAt_outcome (hi.valid k a ha) hidx v) (ownOf ha)
     simp only [step, ha, specStep, absPool_some ha, Option.map_some]
     exact this
+  | vctor k src ops =>
+    obtain ⟨hk, b, hb, hdom, hne⟩ := hd
+    have hvb := hi.valid src b hb
+    obtain ⟨wf, hin, hnz, hval⟩ := view_of_array hvb ops hdom
+    have ho := viewCtor_outcome_all p.heap b.base (cellsOf p.heap b) _ wf hne
+      (fun hn => by obtain ⟨s, hs, hl, _⟩ := hvb.block (hnz hn); exact ⟨s, hs, hl⟩) hin
+    rw [hval] at ho
+    have := hi.replace k ho (noOwner hk)
+    simp only [step, hb, specStep, absPool_some hb, Option.map_some]
+    exact this
+  | vassign k src ops =>
+    obtain ⟨hks, a, b, ha, hb, hD, hdom, hne, hdim⟩ := hd
+    have hvb := hi.valid src b hb
+    obtain ⟨wf, hin, hnz, hval⟩ := view_of_array hvb ops hdom
+    have ho := viewAssign_outcome (hi.valid k a ha) hD b.base (cellsOf p.heap b) _ wf hne
+      (fun hn => by
+        obtain ⟨s, hs, hl, _⟩ := hvb.block (hnz hn)
+        exact ⟨s, hs, hl, fun hna => by rw [← hs]; exact hi.sep k src a b hks ha hb hna (hnz hn)⟩) hin
+    rw [hval] at ho
+    have := hi.replace k ho (ownOf ha)
+    simp only [step, ha, hb, specStep, absPool_some hb, Option.map_some]
+    exact this
+  | rassign k src ops =>
+    obtain ⟨hks, a, b, ha, hb, hD, hdom, hne, hdim⟩ := hd
+    have hvb := hi.valid src b hb
+    obtain ⟨wf, hin, hnz, hval⟩ := view_of_array hvb ops hdom
+    have ho := rangeAssign_outcome (hi.valid k a ha) hD b.base (cellsOf p.heap b) _ wf hne hdim
+      (fun hn => by
+        obtain ⟨s, hs, hl, _⟩ := hvb.block (hnz hn)
+        exact ⟨s, hs, hl, fun hna => by rw [← hs]; exact hi.sep k src a b hks ha hb hna (hnz hn)⟩) hin
+    rw [hval] at ho
+    have := hi.replace k ho (ownOf ha)
+    simp only [step, ha, hb, specStep, absPool_some hb, Option.map_some]
+    exact this
+  | convassign k src =>
+    obtain ⟨hks, a, b, ha, hb, hD, hdim⟩ := hd
+    have := hi.replace k (convAssign_outcome (hi.valid k a ha) (hi.valid src b hb) hD hdim
+      (fun hna hnb => hi.sep k src a b hks ha hb hna hnb)) (ownOf ha)
+    simp only [step, ha, hb, specStep, absPool_some hb]
+    exact this
+  | stdswap j k =>
+    obtain ⟨hjk, a, b, ha, hb, hDa, hDb⟩ := hd
+    obtain ⟨i1, p1⟩ := hi.swapSlots ha hb
+    have hva := hi.valid j a ha
+    obtain ⟨v1, a1, n1, b1⟩ := moveCtor_valid hva
+    have hk1 : ((p.set j (some b)).set k (some a)).arrs k = some a := by simp [Pool.set_arrs, upd]
+    obtain ⟨i2, p2⟩ := i1.replace' k (h' := p.heap) (M := fun _ => False) (Frame.refl _ _) rfl rfl v1 a1 (fun _ hf => False.elim hf) (by
+      intro hn i c hik hc hnc
+      rw [b1]
+      exact i1.sep i k c a hik hc hk1 hnc (by rw [← n1]; exact hn))
+    have epool : step cfg p (.stdswap j k) = ((((p.set j (some b)).set k (some a)).withHeap p.heap).set k (some (moveCtor a).1)) := by
+      simp only [step, ha, hb, stdSwap_eq p.heap a b hDa hDb]
+      show ((p.withHeap p.heap).set j (some b)).set k (some (moveCtor a).1) = _
+      have : (((p.set j (some b)).set k (some a)).withHeap p.heap).set k (some (moveCtor a).1)
+          = ((p.set j (some b)).set k (some a)).set k (some (moveCtor a).1) := rfl
+      rw [this, Pool.set_set]; rfl
+    rw [epool]
+    refine ⟨i2, ?_⟩
+    rw [p2, p1]
+    funext i
+    simp only [specStep, upd]
+    by_cases hik : i = k
+    · simp [hik, absPool_some ha]
+    · simp [hik]
+  | assignr k c inner vals =>
+    obtain ⟨a, ha, hD, hes, hlen⟩ := hd
+    have := hi.replace k (assignRange_outcome (hi.valid k a ha) hD c inner vals hes hlen) (ownOf ha)
+    simp only [step, ha, specStep, absPool_some ha, Option.map_some]
+    exact this
+  | ilassign k c inner vals =>
+    obtain ⟨a, ha, hD, hes, hlen⟩ := hd
+    have := hi.replace k (ilAssign_outcome (hi.valid k a ha) hD c inner vals hes hlen) (ownOf ha)
+    simp only [step, ha, specStep, absPool_some ha, Option.map_some]
+    have he : (absArr p.heap a).exts.length = a.dim := exts_length a
+    simp only [he, emptyVal]
+    exact this
+  | il k c inner vals =>
+    obtain ⟨hk, hes, hlen⟩ := hd
+    exact hi.replace k (ilCtor_outcome cfg p.heap c inner vals hes hlen) (noOwner hk)
+  | reext k es fill =>
+    obtain ⟨a, ha, hes, hlen, hD⟩ := hd
+    by_cases hx : Exts.eqv es a.exts = true
+    · simp only [step, ha, specStep, reextent_same cfg p.heap a es fill hx, absPool_some ha, Option.map_some]
+      rw [Pool.set_same p ha]
+      have : (absArr p.heap a).exts = a.exts := rfl
+      simp only [this, hx, if_true]
+      refine ⟨hi, ?_⟩
+      rw [← absPool_some ha, upd_self]
+    · have hx' : Exts.eqv es a.exts = false := by simpa using hx
+      have := hi.replace k (reextent_outcome cfg (hi.valid k a ha) hes hlen hD fill hx') (ownOf ha)
+      simp only [step, ha, specStep, absPool_some ha, Option.map_some]
+      have he : (absArr p.heap a).exts = a.exts := rfl
+      simp only [he, hx', Bool.false_eq_true, if_false]
+      exact this
 
 /-! ### histories -/
 
